@@ -1,33 +1,46 @@
-"""Virtual-time loops: VLoop (symbolic-capable model) and RealVirtualLoop (real BaseEventLoop + fake clock) for replay."""
-import asyncio, collections, selectors
+"""Virtual-time event loops.
+
+VLoop            pure-Python AbstractEventLoop whose timer deadlines may be solver terms; mirrors BaseEventLoop._run_once
+                 (due timers are moved to the ready queue, then exactly the handles that were ready at that point run).
+                 Ties between equal deadlines are FIFO. Real asyncio Task/Future/Event/wait/sleep/Queue run on it unchanged.
+RealVirtualLoop  the REAL asyncio scheduler (SelectorEventLoop: ready queue, timer heap, Task stepping) on a fake clock and a
+                 selector that never blocks: used to replay concrete scenarios on unmodified machinery. FIFO ties are obtained
+                 by adding a tiny increasing epsilon to every deadline.
+"""
+import asyncio, collections, selectors, heapq
 from .core import EngineLimit, CutPath
 
 
 class VLoop(asyncio.AbstractEventLoop):
-    def __init__(self):
+    def __init__(self, scale=2):
         self._ready = collections.deque()
         self._timers = []
         self._time = 0
+        self.scale = scale            # internal time unit = 1/scale second, so that instants between whole seconds exist
         self.errors = []
         self.steps = 0
+        self._debug = False
 
     def time(self): return self._time
     def get_debug(self): return False
     def is_running(self): return True
     def is_closed(self): return False
     def call_exception_handler(self, ctx): self.errors.append(ctx)
+    def default_exception_handler(self, ctx): self.errors.append(ctx)
 
     def call_soon(self, cb, *args, context=None):
-        h = asyncio.Handle(cb, args, self, context); self._ready.append(h); return h
+        h = asyncio.Handle(cb, args, self, context)
+        self._ready.append(h)
+        return h
     call_soon_threadsafe = call_soon
 
     def call_later(self, delay, cb, *args, context=None):
-        return self.call_at(self._time + delay, cb, *args, context=context)
+        return self.call_at(self._time + delay * self.scale, cb, *args, context=context)
 
     def call_at(self, when, cb, *args, context=None):
         h = asyncio.TimerHandle(when, cb, args, self, context)
         i = len(self._timers)
-        while i > 0 and when < self._timers[i - 1]._when:  # forks on symbolic deadlines; FIFO on ties
+        while i > 0 and bool(when < self._timers[i - 1]._when):   # forks on symbolic deadlines; FIFO on ties
             i -= 1
         self._timers.insert(i, h)
         return h
@@ -38,50 +51,88 @@ class VLoop(asyncio.AbstractEventLoop):
     def create_task(self, coro, *, name=None, context=None):
         return asyncio.Task(coro, loop=self, name=name, context=context)
 
-    def run(self, horizon=None, max_steps=5000):
+    def run(self, horizon=None, max_steps=20000):
         asyncio.events._set_running_loop(self)
         try:
             while True:
-                while self._ready:
+                if not self._ready:
+                    # A timer fires only when nothing is ready, and one at a time: equal deadlines are distinct instants in
+                    # FIFO order (on a real clock two timers are never due at exactly the same time). RealVirtualLoop gets
+                    # the same behaviour from the epsilon it adds to every deadline.
+                    self._timers = [t for t in self._timers if not t._cancelled]
+                    if not self._timers:
+                        return "quiescent"
+                    t = self._timers[0]
+                    if horizon is not None and bool(t._when > horizon):
+                        return "horizon"
+                    self._timers.pop(0)
+                    self._time = t._when
+                    self._ready.append(t)
+                for _ in range(len(self._ready)):
                     h = self._ready.popleft()
                     if not h._cancelled:
                         h._run()
                     self.steps += 1
                     if self.steps > max_steps:
-                        raise EngineLimit("loop steps")
-                self._timers = [t for t in self._timers if not t._cancelled]
-                if not self._timers:
-                    return "quiescent"
-                t = self._timers[0]
-                if horizon is not None and t._when > horizon:   # may fork
-                    return "horizon"
-                self._timers.pop(0)
-                self._time = t._when
-                self._ready.append(t)
+                        raise EngineLimit("event-loop step limit")
         finally:
             asyncio.events._set_running_loop(None)
 
 
 class _FakeSelector(selectors.BaseSelector):
-    def __init__(self, loop): self.loop = loop; self._map = {}
+    def __init__(self, loop):
+        self.loop = loop
+        self._map = {}
+
     def register(self, fileobj, events, data=None):
-        k = selectors.SelectorKey(fileobj, 0, events, data); self._map[fileobj] = k; return k
-    def unregister(self, fileobj): return self._map.pop(fileobj)
+        k = selectors.SelectorKey(fileobj, 0, events, data)
+        self._map[fileobj] = k
+        return k
+
+    def unregister(self, fileobj):
+        return self._map.pop(fileobj)
+
     def select(self, timeout=None):
         if timeout is None:
-            raise RuntimeError("deadlock: nothing scheduled")
+            raise Quiescent()
         if timeout > 0:
             self.loop._vt += timeout
         return []
-    def get_map(self): return self._map
+
+    def get_map(self):
+        return self._map
+
+
+class Quiescent(Exception):
+    """nothing scheduled any more"""
 
 
 class RealVirtualLoop(asyncio.SelectorEventLoop):
-    """The real asyncio scheduler (ready queue, timer heap, Task stepping) on a fake clock."""
+    """The real asyncio scheduler on a fake clock."""
+
     def __init__(self):
         self._vt = 0.0
+        self._seq = 0
         super().__init__(selector=_FakeSelector(self))
-        self._clock_resolution = 1e-9
-    def time(self): return self._vt
+        self._clock_resolution = 1e-7
+
+    def time(self):
+        return self._vt
+
+    def call_at(self, when, callback, *args, context=None):
+        self._seq += 1
+        return super().call_at(when + self._seq * 1e-6, callback, *args, context=context)   # FIFO among equal deadlines
+
     def _make_self_pipe(self): pass
     def _close_self_pipe(self): pass
+
+    def run_until_quiescent(self, horizon):
+        """run_forever until nothing is scheduled or virtual time passes `horizon`"""
+        def stopper():
+            self.stop()
+        self.call_at(horizon, stopper)
+        try:
+            self.run_forever()
+            return "horizon"
+        except Quiescent:
+            return "quiescent"
